@@ -508,11 +508,52 @@ impl C08 {
 
 impl Check for C08 {
     fn directed(&self) -> u64 {
-        6
+        7
     }
     fn run(&mut self, ctx: &mut Ctx, rng: &mut Rng, case: u64) {
         let st = |h: usize, addr: u64, bits: usize, v: u64| Op::Store { h, addr, bits, value: BigUint::from(v) };
         match case {
+            6 => {
+                // equality implies identical loads: two memories of different byte order (with the same, an equal, or no
+                // backing; with and without equal stores) may only compare equal if no load tells them apart
+                for with_backing in [false, true] {
+                    for stores in [false, true] {
+                        let mk = |e: Endian| -> Memory<Constant> {
+                            let mut m = if with_backing {
+                                let mut b = backing::Memory::new(Endian::Little);
+                                b.set_memory(0x1000, vec![0x11, 0x22, 0x33, 0x44, 0x55, 0x66, 0x77, 0x88], MemoryPermissions::READ);
+                                Memory::new_with_backing(e, RC::new(b))
+                            } else {
+                                Memory::new(e)
+                            };
+                            if stores || !with_backing {
+                                for (i, v) in [0xa1u64, 0xb2, 0xc3, 0xd4].iter().enumerate() {
+                                    m.store(0x2000 + i as u64, Constant::new(*v, 8)).unwrap();
+                                }
+                            }
+                            m
+                        };
+                        let (a, b) = (mk(Endian::Little), mk(Endian::Big));
+                        ctx.eval();
+                        let equal = match guard(|| a == b) {
+                            Ok(e) => e,
+                            Err(p) => {
+                                ctx.panic_violation("eq", &p, json!({"with_backing": with_backing, "stores": stores}));
+                                continue;
+                            }
+                        };
+                        let differ = [(0x1000u64, 16usize), (0x1000, 32), (0x2000, 16), (0x2000, 32)].iter().any(|(addr, bits)| {
+                            let la = a.load(*addr, *bits).ok().flatten();
+                            let lb = b.load(*addr, *bits).ok().flatten();
+                            la != lb
+                        });
+                        if equal && differ {
+                            ctx.violation("eq:true_but_loads_differ:different_byte_order:directed", json!({"with_backing": with_backing, "stores": stores}));
+                        }
+                        ctx.class(&format!("eq/byte_order/{}/{}", if with_backing {"backed"} else {"plain"}, if stores {"stores"} else {"no_stores"}));
+                    }
+                }
+            }
             0 => {
                 // reflexive equality with and without backing
                 for bk in [false, true] {
